@@ -101,6 +101,11 @@ CHECKS = {
    text="Every unordered pair (including a call with itself) of 33 Screen methods runs on two threads against a live terminfo screen with input traffic and a resize notification, and every pair of the 25 methods meaningful on SimulationScreen against a simulation screen; thorough adds all triples over 12 state-mutating calls. Each program is executed under the controlled scheduler for schedules within 1 deviation (quick: first 6 schedules per program, thorough 300). The build uses -race; the scheduler brackets its baton hand-offs with runtime.RaceDisable/RaceEnable and keeps the program's own sync operations real, so ThreadSanitizer sees exactly the program's happens-before relation in every schedule. Reports are keyed by the pair of tcell functions at the racing accesses; reports whose access frames lie in the harness or scheduler are discarded. Also checked: no panic, no lock deadlock, each Show/Sync reaches the tty as exactly one well-formed Write.",
    note="ThreadSanitizer's bounded history can miss but never invents a race; race detection is happens-before based, so the schedule bound only serves to reach code paths; prepareKeys' write to a shared Terminfo entry needs two screens and is not exercised.",
    design="2/C10"),
+ "C19": dict(level="model_checking",
+   technique="build obligation for js/wasm + explicit-state exploration executed inside the wasm program under Node with recording JavaScript stand-ins",
+   text="The check first compiles the package for GOOS=js GOARCH=wasm from the current tree (a compile error is the violation, with the compiler output as replay). The worker then runs under Node: BFS (depth 4, thorough 5) over draw histories on the real wasm screen, rebuilding the page grid from the recorded drawCell calls and comparing it with the shadow model (text with combining runes, 24-bit colours with the xterm-like values for the 16 basic colours, attribute bits, underline style/colour) after every Show/Sync and requiring drawn cells to be changed cells; every key name of WebKeyNames and printable keys x all 16 modifier combinations; both mouse callbacks x button codes x modifier sets x all 8 enabled-flag sets; paste/focus callbacks enabled and disabled; and all 340 orders of Suspend/Resume/SetSize/Fini up to length 4, probing after each call that the screen lock was released (a held lock wedges every later call).",
+   note="tcell.js itself is replaced by recording functions installed from Go; default colours and wide runes in the last column are not compared; a call that blocks inside itself would end the worker with the Go runtime's deadlock report, which the driver turns into a violation.",
+   design="2/C19"),
  # --- new checks above this line ---
 }
 
